@@ -182,8 +182,9 @@ CLAIMED = {
     note="Trusted: Coq kernel + vm_compute; no axioms; hand-written models; harness. C08_sequence discharges every hypothesis of "
          "the abstract theorem for any number of comparison constraints on a PCBO (independence from later ancillas comes from "
          "C02_ancilla_bound); C08_sequence_spin is the same for PCSO; C08_sequence_reduced continues through any degree reduction "
-         "and convert_solution. Not proved as one statement: sequences that mix logic constraints with comparison constraints; "
-         "those workflows are covered by the correspondence run and the oracle. The reduced form assumes only the C14 invariant of the "
+         "and convert_solution; C08_sequence_mixed / C08_sequence_mixed_reduced are the same for sequences that mix comparison "
+         "constraints with the sixteen logic constraints on a PCBO (label provenance of the logic penalties: "
+         "Proofs/WorkflowMixed.v). The reduced form assumes only the C14 invariant of the "
          "objective model (C14_constraint_step carries it through the constraint methods).",
     technique="Coq proof (exchange argument over penalties, composed with the C01 and C02 theorems) + model/implementation correspondence", ref="§5 C08"),
  "C11": dict(
